@@ -10,7 +10,9 @@ The two sides must print the same lines (correspondence); the oracle is the prop
 """
 import inspect
 import json
+import os
 import re
+import subprocess
 import textwrap
 
 from .. import hailenv
@@ -152,6 +154,12 @@ def to_ast(s):
     if h == 'AggFilter':
         assert s[1] == 'False'
         return ('aggfilter', to_ast(s[2]), to_ast(s[3]))
+    if h == 'AggExplode':
+        assert s[2] == 'False'
+        return ('aggexplode', s[1], to_ast(s[3]), to_ast(s[4]))
+    if h == 'AggGroupBy':
+        assert s[1] == 'False'
+        return ('agggroupby', to_ast(s[2]), to_ast(s[3]))
     if h == 'ApplyAggOp':
         assert s[2] == [] and len(s[3]) == 1
         return ('agg', {'Max': 'max', 'Collect': 'collect'}[s[1]], to_ast(s[3][0]))
@@ -206,14 +214,17 @@ def slots(n):
         return [(n[2], (), 'v'), (n[3], (), ('q', n[1]))]
     if k == 'agglet':
         return [(n[2], (), 'a'), (n[3], (), ('al', n[1]))]
-    if k == 'aggfilter':
+    if k in ('aggfilter', 'agggroupby'):
         return [(n[1], (), 'a'), (n[2], (), 'v')]
     if k == 'agg':
         return [(n[2], (), 'a')]
+    if k == 'aggexplode':
+        return [(n[2], (), 'a'), (n[3], (), ('al', n[1]))]
     raise ValueError(k)
 
 
-AGG_KINDS = {'sagg', 'agglet', 'aggfilter', 'agg'}
+AGG_KINDS = {'sagg', 'agglet', 'aggfilter', 'agg', 'aggexplode', 'agggroupby'}
+AGG_ONLY = ('agglet', 'aggfilter', 'agg', 'aggexplode', 'agggroupby')        # need an aggregation scope
 _CSE = re.compile(r'__cse_\d+\Z')
 
 
@@ -226,7 +237,7 @@ def scope_ok(n, G, D):
     k = n[0]
     if k == 'ref':
         return n[1] in G
-    if k in ('agglet', 'aggfilter', 'agg') and D is None:
+    if k in AGG_ONLY and D is None:
         return False
     for c, bs, mode in slots(n):
         if mode == 'v':
@@ -249,7 +260,7 @@ def unbound_refs(n, G, D, out):
         if n[1] not in G:
             out.append(n[1])
         return out
-    if k in ('agglet', 'aggfilter', 'agg') and D is None:
+    if k in AGG_ONLY and D is None:
         out.append(f'<{k} outside any aggregation scope>')
         return out
     for c, bs, mode in slots(n):
@@ -289,9 +300,9 @@ def fva(n):
         return set()
     if k == 'sagg':
         return fva(n[2])
-    if k == 'agglet':
+    if k in ('agglet', 'aggexplode'):
         return fv(n[2]) | (fva(n[3]) - {n[1]})
-    if k == 'aggfilter':
+    if k in ('aggfilter', 'agggroupby'):
         return fv(n[1]) | fva(n[2])
     if k == 'agg':
         return fv(n[2])
@@ -337,10 +348,10 @@ def rebuild(n, f):
         return ('gte', next(it), n[2])
     if k == 'sagg':
         return ('sagg', n[1], next(it), next(it))
-    if k == 'agglet':
-        return ('agglet', n[1], next(it), next(it))
-    if k == 'aggfilter':
-        return ('aggfilter', next(it), next(it))
+    if k in ('agglet', 'aggexplode'):
+        return (k, n[1], next(it), next(it))
+    if k in ('aggfilter', 'agggroupby'):
+        return (k, next(it), next(it))
     if k == 'agg':
         return ('agg', n[1], next(it))
     raise ValueError(k)
@@ -349,7 +360,7 @@ def rebuild(n, f):
 def uses_agg(n):
     """does the value depend on the ambient aggregation scope (agg_capability in free_vars)?"""
     k = n[0]
-    if k in ('agg', 'aggfilter'):
+    if k in ('agg', 'aggfilter', 'aggexplode', 'agggroupby'):
         return True
     if k == 'agglet':
         return uses_agg(n[3])
@@ -365,10 +376,10 @@ def subst(x, v, n):
         return v if n[1] == x else n
     if k == 'sagg':
         return ('sagg', n[1], subst(x, v, n[2]), n[3])
-    if k == 'agglet':
-        return ('agglet', n[1], n[2], subst(x, v, n[3]))
-    if k == 'aggfilter':
-        return ('aggfilter', n[1], subst(x, v, n[2]))
+    if k in ('agglet', 'aggexplode'):
+        return (k, n[1], n[2], subst(x, v, n[3]))
+    if k in ('aggfilter', 'agggroupby'):
+        return (k, n[1], subst(x, v, n[2]))
     if k == 'agg':
         return n
     return rebuild(n, lambda c, bs, m: c if x in bs else subst(x, v, c))
@@ -378,8 +389,10 @@ def subst_ok(x, F, FA, dep, n):
     k = n[0]
     if k == 'sagg':
         return subst_ok(x, F, FA, dep, n[2]) and x not in (fv(n[3]) | (fva(n[3]) - {n[1]}))
-    if k == 'aggfilter':
+    if k in ('aggfilter', 'agggroupby'):
         return x not in fv(n[2]) or (not dep and subst_ok(x, F, FA, dep, n[2]))
+    if k == 'aggexplode':
+        return x not in fv(n[3]) or (not dep and subst_ok(x, F, FA, dep, n[3]))
     if k == 'agglet':
         return x not in fv(n[3]) or ((not dep or n[1] not in FA) and subst_ok(x, F, FA, dep, n[3]))
     if k == 'agg':
@@ -400,10 +413,10 @@ def subst_a(x, v, n):
         return n
     if k == 'sagg':
         return ('sagg', n[1], subst_a(x, v, n[2]), n[3])
-    if k == 'agglet':
-        return ('agglet', n[1], subst(x, v, n[2]), n[3] if n[1] == x else subst_a(x, v, n[3]))
-    if k == 'aggfilter':
-        return ('aggfilter', subst(x, v, n[1]), subst_a(x, v, n[2]))
+    if k in ('agglet', 'aggexplode'):
+        return (k, n[1], subst(x, v, n[2]), n[3] if n[1] == x else subst_a(x, v, n[3]))
+    if k in ('aggfilter', 'agggroupby'):
+        return (k, subst(x, v, n[1]), subst_a(x, v, n[2]))
     if k == 'agg':
         return ('agg', n[1], subst(x, v, n[2]))
     return rebuild(n, lambda c, bs, m: subst_a(x, v, c))
@@ -413,9 +426,9 @@ def subst_a_ok(x, F, FA, dep, n):
     k = n[0]
     if k == 'sagg':
         return subst_a_ok(x, F, FA, dep, n[2])
-    if k == 'agglet':
+    if k in ('agglet', 'aggexplode'):
         return subst_ok(x, F, FA, dep, n[2]) and (n[1] == x or (n[1] not in F and subst_a_ok(x, F, FA, dep, n[3])))
-    if k == 'aggfilter':
+    if k in ('aggfilter', 'agggroupby'):
         return subst_ok(x, F, FA, dep, n[1]) and subst_a_ok(x, F, FA, dep, n[2])
     if k == 'agg':
         return subst_ok(x, F, FA, dep, n[2])
@@ -555,6 +568,20 @@ def max_vals(vs):
     return acc
 
 
+def key_eq(a, b):
+    """equality of group-by keys: scalars only (a non-scalar key is its own group)"""
+    if a[0] in ('i', 'b') and a[0] == b[0]:
+        return a[1] == b[1]
+    return a == NA and b == NA
+
+
+def dedup_keys(ks):
+    out = []
+    for k in reversed(ks):
+        out = [k] + [k2 for k2 in out if not key_eq(k, k2)]
+    return out
+
+
 def ev(n, rho, A):
     """rho: dict name -> value; A: list of dicts (aggregation scope)"""
     k = n[0]
@@ -678,6 +705,18 @@ def ev(n, rho, A):
     if k == 'agg':
         vs = [ev(n[2], s, []) for s in A]
         return max_vals(vs) if n[1] == 'max' else ('arr', vs)
+    if k == 'aggexplode':
+        A2 = []
+        for s in A:
+            vs, _ = as_arr(ev(n[2], s, []))
+            for w in (vs or []):
+                s2 = dict(s)
+                s2[n[1]] = w
+                A2.append(s2)
+        return ev(n[3], rho, A2)
+    if k == 'agggroupby':
+        keyed = [(ev(n[1], s, []), s) for s in A]
+        return ('dict', [(kv, ev(n[2], rho, [s for kk, s in keyed if key_eq(kk, kv)])) for kv in dedup_keys([kk for kk, _ in keyed])])
     raise ValueError(k)
 
 
@@ -695,6 +734,8 @@ def show_val(v):
         return '(tup' + ''.join(' ' + show_val(x) for x in v[1]) + ')'
     if k == 'st':
         return '(st' + ''.join(f' ({f} {show_val(x)})' for f, x in v[1]) + ')'
+    if k == 'dict':
+        return '(dict' + ''.join(f' ({show_val(a)} {show_val(b)})' for a, b in v[1]) + ')'
     raise ValueError(k)
 
 
@@ -720,8 +761,13 @@ I32, BOOL = 'i32', 'bool'
 ST_AB = ['st', [['a', I32], ['b', I32]]]
 ST_XS = ['st', [['n', I32], ['xs', ['arr', I32]]]]
 TUP = ['tup', [I32, BOOL]]
+DICT_II = ['dict', I32, I32]                 # AggGroupBy results
+DICT_BA = ['dict', BOOL, ['arr', I32]]
+TUP_D = ['tup', [DICT_II, I32]]
+TUP_DD = ['tup', [DICT_II, DICT_II]]
 GLOBALS = {'g0': I32, 'g1': I32, 'ga': ['arr', I32], 'gs': ST_AB, 'gb': BOOL}
 ROOT_TYPES = [I32, I32, BOOL, ['arr', I32], ['arr', I32], ['arr', ST_AB], ST_XS, ST_AB, TUP]
+AGG_ROOT_TYPES = [I32, I32, I32, ['arr', I32], DICT_II, DICT_BA, TUP_D, TUP_DD]
 
 
 def tkey(t):
@@ -825,6 +871,9 @@ class Gen:
         if t[0] == 'tup':
             kids = [self.leaf(et, scope) for et in t[1]]
             return self.add(['tuple', kids], t, *self.merge(kids))
+        if t[0] == 'dict':
+            # no literal of dict type: the smallest producer is a group-by (inside a query) / a StreamAgg around one (outside)
+            return self.fresh(t, scope, 1)
         raise ValueError(t)
 
     def lam(self, scope, name, ty):
@@ -835,14 +884,15 @@ class Gen:
 
     def fresh(self, t, scope, depth):
         rng = self.rng
-        if depth <= 0:
+        if depth <= 0 and t[0] != 'dict':
             return self.leaf(t, scope)
-        d = depth - 1
+        d = max(depth - 1, 0)
         opts = ['leaf', 'if', 'let']
         if t == I32:
             opts += ['bin', 'bin', 'bin', 'neg', 'aref', 'alen', 'fold', 'get', 'gte']
             if scope.ag is not None:
-                opts = ['aggmax'] * 5 + ['aggfilter'] * 3 + ['agglet'] * 3 + ['bin'] * 4 + ['if', 'let', 'leaf', 'neg'] + ['aggshare'] * 4
+                opts = (['aggmax'] * 5 + ['aggfilter'] * 3 + ['agglet'] * 3 + ['bin'] * 4 + ['if', 'let', 'leaf', 'neg'] + ['aggshare'] * 5
+                        + ['aggexplode'] * 3 + ['alen'] * 2 + ['bindshare'] * 4)
             elif self.use_agg:
                 opts += ['sagg'] * 4
         elif t == BOOL:
@@ -852,39 +902,88 @@ class Gen:
             if t[1] == I32:
                 opts += ['get']
             if scope.ag is not None:
-                opts = ['aggcollect'] * 4 + ['aggfilter'] * 2 + ['agglet'] * 2 + ['mk', 'if', 'let']
+                opts = ['aggcollect'] * 4 + ['aggfilter'] * 2 + ['agglet'] * 2 + ['aggexplode'] * 2 + ['mk', 'if', 'let']
         elif t[0] == 'stream':
             opts = ['tostream', 'map', 'map', 'filter']
         elif t[0] == 'st':
             opts += ['mk', 'mk', 'ins', 'ins'] if t[1] else ['mk']
         elif t[0] == 'tup':
             opts += ['mk', 'mk']
-        o = rng.choice(opts)
-        if o == 'aggshare':
-            # ONE aggregation object used under an AggFilter / AggLet and outside it (or twice under it): its meaning differs per
-            # occurrence, so it must not be lifted across that boundary
-            a = self.expr(I32, Scope(dict(scope.ag), None), d)
-            fa, _, _ = self.merge([a])
-            agg = self.add(['agg', 'Max', a], I32, {}, fa, True)
-            c = self.expr(BOOL, Scope(dict(scope.ag), None), max(d, 1))
-            fc, _, _ = self.merge([c])
-            shape = rng.choice(['filter+outside', 'twice-under-filter', 'two-filters'])
-            if shape == 'twice-under-filter':
-                body = self.add(['bin', rng.choice(['+', '*', '-']), agg, agg], I32, {}, dict(fa), True)
-                fav = dict(fa)
-                fav.update(fc)
-                return self.add(['aggfilter', c, body], I32, {}, fav, True)
-            fav = dict(fa)
-            fav.update(fc)
-            f1 = self.add(['aggfilter', c, agg], I32, {}, fav, True)
-            if shape == 'two-filters':
-                c2 = self.expr(BOOL, Scope(dict(scope.ag), None), max(d, 1))
-                fc2, _, _ = self.merge([c2])
-                fav2 = dict(fa)
-                fav2.update(fc2)
-                other = self.add(['aggfilter', c2, agg], I32, {}, fav2, True)
+            if t in (TUP_D, TUP_DD):
+                if scope.ag is not None:
+                    opts += ['tupshare' if t == TUP_D else 'dictshare'] * 4
+                elif self.use_agg:
+                    opts += ['sagg'] * 5
+        elif t[0] == 'dict':
+            if scope.ag is not None:
+                opts = ['agggroupby'] * 5 + ['groupshare'] * 3 + (['aggfilter', 'agglet', 'aggexplode', 'if', 'let'] if depth > 0 else [])
             else:
-                other = agg
+                opts = ['sagg'] * 4 + (['if', 'let'] if depth > 0 else [])
+        o = rng.choice(opts)
+        if o in ('aggshare', 'groupshare', 'tupshare', 'dictshare'):
+            # ONE aggregation object used under an AggFilter / AggExplode / AggGroupBy and outside it (or twice under it, or under
+            # two of them): its meaning differs per occurrence, so it must not be lifted across that boundary
+            agg_scope = Scope(dict(scope.ag), None)
+            a = self.expr(I32, agg_scope, d)
+            fa, _, _ = self.merge([a])
+            if rng.random() < 0.6:
+                agg = self.add(['agg', 'Max', a], I32, {}, fa, True)
+            else:
+                coll = self.add(['agg', 'Collect', a], ['arr', I32], {}, dict(fa), True)
+                agg = self.add(['alen', coll], I32, {}, dict(fa), True)
+
+            def boundary(body, body_t, kind):
+                """body under a fresh boundary node of the given kind -> (node, type)"""
+                _, fav_b, _ = self.merge([body])
+                fav = dict(fav_b)
+                if kind == 'filter':
+                    c = self.expr(BOOL, agg_scope, max(d, 1))
+                    fav.update(self.merge([c])[0])
+                    return self.add(['aggfilter', c, body], body_t, {}, fav, True), body_t
+                if kind == 'explode':
+                    st = self.expr(['stream', I32], agg_scope, max(d, 1))
+                    fav.update(self.merge([st])[0])
+                    self.counter += 1            # a brand-new name: the body exists already and must not be captured
+                    nm = f'x{self.counter}'
+                    self.names_used.append(nm)
+                    return self.add(['aggexplode', nm, st, body], body_t, {}, fav, True), body_t
+                kt = I32 if kind == 'group-i32' else rng.choice([I32, BOOL])
+                kx = self.expr(kt, agg_scope, max(d, 1))
+                fav.update(self.merge([kx])[0])
+                dt = ['dict', kt, body_t]
+                return self.add(['agggroupby', kx, body], dt, {}, fav, True), dt
+
+            if rng.random() < 0.35:
+                # the shared object is itself an AggFilter / AggExplode node (they carry the capability themselves)
+                agg = boundary(agg, I32, rng.choice(['filter', 'explode']))[0]
+                fa = dict(self.info[agg][2])
+            if o == 'dictshare':
+                # ONE AggGroupBy object (it carries the capability itself) under an AggFilter / AggExplode and outside it
+                g0, _ = boundary(agg, I32, 'group-i32')
+                g1, _ = boundary(g0, DICT_II, rng.choice(['filter', 'explode']))
+                kids = [g1, g0] if rng.random() < 0.5 else [g0, g1]
+                return self.add(['tuple', kids], t, *self.merge(kids))
+            if o == 'tupshare':
+                # (group-by of the aggregation, the same aggregation outside the group-by)
+                g1, _ = boundary(agg, I32, 'group-i32')
+                return self.add(['tuple', [g1, agg]], t, *self.merge([g1, agg]))
+            if o == 'groupshare':
+                # t is a dict<K, I32> / dict<K, arr<I32>> type: the aggregation twice under ONE group-by (the binding belongs inside)
+                if t[2] == I32:
+                    body = self.add(['bin', rng.choice(['+', '*', '-']), agg, agg], I32, {}, dict(fa), True)
+                else:
+                    body = self.add(['arr', I32, [agg, agg]], ['arr', I32], {}, dict(fa), True)
+                kx = self.expr(t[1], agg_scope, max(d, 1))
+                fav = dict(fa)
+                fav.update(self.merge([kx])[0])
+                return self.add(['agggroupby', kx, body], t, {}, fav, True)
+            kind = rng.choice(['filter', 'filter', 'explode'])
+            shape = rng.choice(['under+outside', 'twice-under', 'two-boundaries'])
+            if shape == 'twice-under':
+                body = self.add(['bin', rng.choice(['+', '*', '-']), agg, agg], I32, {}, dict(fa), True)
+                return boundary(body, I32, kind)[0]
+            f1, _ = boundary(agg, I32, kind)
+            other = boundary(agg, I32, rng.choice(['filter', 'explode']))[0] if shape == 'two-boundaries' else agg
             return self.add(['bin', rng.choice(['+', '-', '*']), f1, other], I32, *self.merge([f1, other]))
         if o == 'leaf':
             return self.leaf(t, scope)
@@ -1007,6 +1106,58 @@ class Gen:
             fq, aq, _ = self.merge([q])
             aq.update(fc)
             return self.add(['aggfilter', c, q], t, fq, aq, True)
+        if o == 'bindshare':
+            # an aggregation-scope binder (AggLet / AggExplode) whose variable is used by ONE argument expression shared between two
+            # aggregation-scope positions of its body: the AggLet that CSE introduces for it belongs inside the binder
+            agg_scope = Scope(dict(scope.ag), None)
+            x = self.fresh_name(scope)
+            if rng.random() < 0.5:
+                src = self.expr(I32, agg_scope, d)
+                mk = lambda body, fav: self.add(['agglet', x, src, body], I32, {}, fav, True)
+            else:
+                src = self.expr(['stream', I32], agg_scope, max(d, 1))
+                mk = lambda body, fav: self.add(['aggexplode', x, src, body], I32, {}, fav, True)
+            inner = dict(scope.ag)
+            inner[x] = I32
+            rx = self.add(['ref', x, I32], I32, {x: tkey(I32)}, {}, False)
+            other = self.expr(I32, Scope(inner, None), min(d, 1))
+            arg = self.add(['bin', rng.choice(['+', '*', '-']), rx, other], I32, *self.merge([rx, other]))
+            farg, _, _ = self.merge([arg])
+            m1 = self.add(['agg', 'Max', arg], I32, {}, dict(farg), True)
+            if rng.random() < 0.5:
+                lim = self.expr(I32, Scope(inner, None), 0)
+                c = self.add(['cmp', rng.choice(['<', '>=', '!=']), arg, lim], BOOL, *self.merge([arg, lim]))
+                m2 = self.add(['agg', 'Max', arg], I32, {}, dict(farg), True)
+                fav2 = dict(farg)
+                fav2.update(self.merge([c])[0])
+                m2 = self.add(['aggfilter', c, m2], I32, {}, fav2, True)
+            else:
+                coll = self.add(['agg', 'Collect', arg], ['arr', I32], {}, dict(farg), True)
+                m2 = self.add(['alen', coll], I32, {}, dict(farg), True)
+            body = self.add(['bin', rng.choice(['+', '-', '*']), m1, m2], I32, *self.merge([m1, m2]))
+            fav = dict(self.info[body][2])
+            fav.pop(x, None)
+            fav.update(self.merge([src])[0])
+            return mk(body, fav)
+        if o == 'aggexplode':
+            et = rng.choice([I32, I32, ST_AB])
+            st = self.expr(['stream', et], Scope(dict(scope.ag), None), d)
+            x = self.fresh_name(scope)
+            ag = dict(scope.ag)
+            ag[x] = et
+            b = self.expr(t, Scope(scope.ev, ag), d)
+            fs, _, _ = self.merge([st])
+            fb, ab, _ = self.merge([b])
+            ab.pop(x, None)
+            ab.update(fs)
+            return self.add(['aggexplode', x, st, b], t, fb, ab, True)
+        if o == 'agggroupby':
+            kx = self.expr(t[1], Scope(dict(scope.ag), None), d)
+            b = self.expr(t[2], scope, d)
+            fk, _, _ = self.merge([kx])
+            fb, ab, _ = self.merge([b])
+            ab.update(fk)
+            return self.add(['agggroupby', kx, b], t, fb, ab, True)
         if o == 'agglet':
             vt = rng.choice([I32, BOOL])
             v = self.expr(vt, Scope(dict(scope.ag), None), d)
@@ -1077,9 +1228,9 @@ def prune(nodes, root):
             return [n[1]]
         if k == 'sagg':
             return [n[2], n[3]]
-        if k == 'agglet':
+        if k in ('agglet', 'aggexplode'):
             return [n[2], n[3]]
-        if k == 'aggfilter':
+        if k in ('aggfilter', 'agggroupby'):
             return [n[1], n[2]]
         if k == 'agg':
             return [n[2]]
@@ -1132,10 +1283,10 @@ def prune(nodes, root):
             return ['gte', m(n[1]), n[2]]
         if k == 'sagg':
             return ['sagg', n[1], m(n[2]), m(n[3])]
-        if k == 'agglet':
-            return ['agglet', n[1], m(n[2]), m(n[3])]
-        if k == 'aggfilter':
-            return ['aggfilter', m(n[1]), m(n[2])]
+        if k in ('agglet', 'aggexplode'):
+            return [k, n[1], m(n[2]), m(n[3])]
+        if k in ('aggfilter', 'agggroupby'):
+            return [k, m(n[1]), m(n[2])]
         if k == 'agg':
             return ['agg', n[1], m(n[2])]
         raise ValueError(k)
@@ -1184,6 +1335,13 @@ def patched_print_call(cls):
     return ns['__call__']
 
 
+def ensure_reader_built():
+    """the driver imports Model/ExprIRRead.lean, which no Props module imports: `lake build <Props>` alone would leave a stale
+    reader behind after an edit (the driver would then answer from the old olean).  Cheap when up to date."""
+    lean = os.path.join(os.path.dirname(os.path.dirname(os.path.dirname(os.path.abspath(__file__)))), 'lean')
+    subprocess.run(['lake', 'build', 'HailVerif.Model.ExprIRRead'], cwd=lean, capture_output=True, text=True)
+
+
 class C35(Prop):
     id = 'C35'
     title = 'Common-subexpression rendering preserves meaning'
@@ -1202,7 +1360,7 @@ class C35(Prop):
                   '(b) the scope checker `scopeOk`, proved to decide WellScoped (value scope and aggregation scope); (c) the check that no '
                   'lifted binding is referenced from inside an If branch that does not contain it; (d) both programs evaluated on sampled '
                   'environments.  The validator covers aggregation contexts: value-scope bindings of aggregations inside StreamAgg queries '
-                  '(never used across an AggFilter, nor across an AggLet that binds one of their free aggregation variables — the '
+                  '(never used across an AggFilter / AggExplode / AggGroupBy, nor across an AggLet that binds one of their free aggregation variables — the '
                   'agg_capability rule, modelled by usesAgg / fva and proved sound) and aggregation-scope bindings (AggLet __cse); EVERY '
                   'generated program must be accepted by it (the evidence counts accepted programs; a rejected one is a violation).  No '
                   'theorem is claimed about the renderer\'s stack machine itself: at the specification level only ONE lifting step is proved '
@@ -1216,9 +1374,11 @@ class C35(Prop):
     search_budget = {'quick': 2500, 'thorough': 40000}
     rule = ('case = a DAG over I32/True/False/Ref/ApplyBinaryPrimOp/ApplyUnaryPrimOp/ApplyComparisonOp/If/Let/MakeArray/ArrayRef/ArrayLen/'
             'ToArray/ToStream/StreamMap/StreamFilter/StreamFold/MakeStruct/GetField/InsertFields/MakeTuple/GetTupleElement/StreamAgg/AggLet/'
-            'AggFilter/ApplyAggOp(Max,Collect) built with the real constructors; a typed random generator reuses already built node '
+            'AggFilter/AggExplode/AggGroupBy/ApplyAggOp(Max,Collect) built with the real constructors; a typed random generator reuses already built node '
             'objects wherever they are well-scoped (under lambdas, in If branches, in Let bodies, across binders of the same name, in '
-            'aggregation scope), plus 3 random environments for the free variables; non-trivial = the real renderer lifted at least one '
+            'aggregation scope; one aggregation / AggFilter / AggExplode / AggGroupBy object under and outside such a node, twice under it, '
+            'under two of them; a binder variable of AggLet / AggExplode inside an argument shared by two aggregation-scope positions), '
+            'plus 3 random environments for the free variables; non-trivial = the real renderer lifted at least one '
             'binding; distinct by full case')
     trusted = ['harness/hailenv.py StubBackend (no engine); decorator / deprecated / parsimonious shims on the import path of `hail`',
                'Model/ExprIRRead.lean (reader of the renderer text, n-ary nodes -> cons cells) and its Python twin in harness/props/c35.py',
@@ -1228,12 +1388,14 @@ class C35(Prop):
                    '(StreamMap/Filter/Fold bodies are not blocks); with an eager Let and a zero-iteration stream the engine would '
                    'evaluate (and could fail on) a binding the inlined IR never evaluates — not visible in this model, not claimed',
                    'variable names built by users never start with __cse_',
-                   'scan-context nodes (ApplyScanOp, StreamAggScan, AggLet True), TableIR/MatrixIR children and randomness are not generated; '
+                   'scan-context nodes (ApplyScanOp, StreamAggScan, AggLet True), AggArrayPerElement, TableIR/MatrixIR children and randomness are '
+                   'not generated; AggGroupBy keys are int32 / bool (the model decides key equality for scalars only); '
                    'no statement about CSERenderer on node kinds outside the generated set, nor about the engine\'s parser or evaluator']
 
 
     # ---- set-up ---------------------------------------------------------------------------------------------------
     def setup(self, repo):
+        ensure_reader_built()
         self.hl = hailenv.init(repo)
         from hail import ir
         import hail.expr.types as T
@@ -1256,6 +1418,8 @@ class C35(Prop):
             return T.tstruct(**{f: self.htype(ft) for f, ft in t[1]})
         if t[0] == 'tup':
             return T.ttuple(*[self.htype(et) for et in t[1]])
+        if t[0] == 'dict':
+            return T.tdict(self.htype(t[1]), self.htype(t[2]))
         raise ValueError(t)
 
     def build(self, case, all_objs=False):
@@ -1317,6 +1481,10 @@ class C35(Prop):
                 o = ir.AggFilter(g(n[1]), g(n[2]), False)
             elif k == 'agg':
                 o = ir.ApplyAggOp(n[1], [], [g(n[2])])
+            elif k == 'aggexplode':
+                o = ir.AggExplode(g(n[2]), n[1], g(n[3]), False)
+            elif k == 'agggroupby':
+                o = ir.AggGroupBy(g(n[1]), g(n[2]), False)
             else:
                 raise ValueError(k)
             objs.append(o)
@@ -1342,7 +1510,7 @@ class C35(Prop):
         free = {n: ty for n, ty in GLOBALS.items() if rng.random() < 0.6}
         if use_agg and rng.random() < 0.5:
             # aggregation-heavy program: [ (StreamAgg x stream query), … ] under a lambda or at the top
-            t = rng.choice([I32, ['arr', I32]])
+            t = rng.choice(AGG_ROOT_TYPES)
             g.share = 0.55
         root = g.expr(t, Scope(dict(free), None), size)
         nodes, root, _ = prune(g.nodes, root)
@@ -1417,7 +1585,8 @@ class C35(Prop):
                         'rendered = ' + ' '.join(self.render(c)[0].split())[:400])
         if not validate(R, P):
             why = ('a lifted binding is used where it does not mean what it meant at its site: below a binder that rebinds one of its '
-                   'variables, or — an aggregation — below an AggFilter/AggLet that changes the aggregation scope (agg_capability rule)'
+                   'variables, or — an aggregation — below an AggFilter/AggExplode/AggGroupBy/AggLet that changes the aggregation scope '
+                   '(agg_capability rule)'
                    if not inline_ok(R) else 'inlining the lifted bindings does not give back the DAG printed as a tree')
             return ('the verified validator rejects the rendering: ' + why + '; rendered = '
                     + ' '.join(self.render(c)[0].split())[:400])
@@ -1510,7 +1679,7 @@ class C35(Prop):
             agg_b = any(True for x in self._agg_lets(R))
             tags.append('lifted-into-agg-scope' if agg_b else 'lifted-in-value-scope-only')
             tags.append('validated-by=verified-validator' if m.group(1) == '1' else 'rejected-by-the-validator')
-            names = [n[1] for n in c['nodes'] if n[0] in ('let', 'map', 'filter', 'sagg', 'agglet')] + \
+            names = [n[1] for n in c['nodes'] if n[0] in ('let', 'map', 'filter', 'sagg', 'agglet', 'aggexplode')] + \
                     [x for n in c['nodes'] if n[0] == 'fold' for x in (n[1], n[2])]
             if len(names) != len(set(names)):
                 tags.append('binder-names-reused')
@@ -1532,7 +1701,7 @@ class C35(Prop):
             return [n[2], n[3]]
         if k == 'if':
             return [n[1], n[2], n[3]]
-        if k in ('let', 'map', 'filter', 'sagg', 'agglet'):
+        if k in ('let', 'map', 'filter', 'sagg', 'agglet', 'aggexplode'):
             return [n[2], n[3]]
         if k == 'arr':
             return list(n[2])
@@ -1548,7 +1717,7 @@ class C35(Prop):
             return [n[1]] + [ch for _, ch in n[2]]
         if k == 'tuple':
             return list(n[1])
-        if k == 'aggfilter':
+        if k in ('aggfilter', 'agggroupby'):
             return [n[1], n[2]]
         if k == 'agg':
             return [n[2]]
